@@ -211,7 +211,8 @@ Fixpoint digits_val (s : bytes) (acc : N) : option N :=
   end.
 
 Definition atoi (s : bytes) : option Z :=
-  let '(neg, ds) := match s with 45 :: r => (true, r) | _ => (false, s) end in
+  let neg := hd_is 45 s in
+  let ds := if neg then tl s else s in
   match ds with
   | [] => None
   | _ =>
